@@ -98,6 +98,8 @@ def _run_one(args):
     except SyntaxError as e:
         return (spec['name'], 'broken-spec', 'edit does not compile: %s' % e)
     try:
+        from sa.rules import common as _common_rules
+        _common_rules._cache.clear()
         code, ctx = run_property(spec['prop'], repo_root, 'quick', overlay=overlay, quiet=True, write=False)
     except AnalysisError as e:
         if spec['kind'] == 'mutant' and spec.get('accept_analysis_error'):
@@ -128,8 +130,10 @@ def run_for(prop, repo_root, jobs=16, names=None):
     work = [(repo_root, s) for s in specs]
     if jobs > 1 and len(work) > 1:
         import multiprocessing as mp
-        with mp.Pool(min(jobs, len(work))) as pool:
-            results = pool.map(_run_one, work)
+        # workers are recycled: the per-repository caches of the rules (paths, call graphs) would otherwise pile up over hundreds of analysed
+        # variants until the kernel kills a worker - and a pool that lost a worker never returns
+        with mp.Pool(min(jobs, len(work)), maxtasksperchild=12) as pool:
+            results = pool.map(_run_one, work, chunksize=1)
     else:
         results = [_run_one(w) for w in work]
     counts = {}
